@@ -5,7 +5,7 @@ LEVEL = 'proof'
 UNITS = c18.UNITS + snapbody.load_units('C18')
 from specs import families as _families
 UNITS = _families.with_families('C18', UNITS)
-BOUNDED = [{'name': 'C18.e2e', 'script': 'bounded/c18_e2e.py', 'timeout': 900, 'bound': 'plain and encrypted repository, owner and shared-key user: listings + restore with the cache disabled vs. warm, every entry cut to 0 / 1 / half / len-1 bytes, one entry missing, an extra stale entry, two entries swapped, cache shared with another key and another repository, stale after a foreign delete; second run on the repaired cache'}]
+BOUNDED = [{'name': 'C18.e2e', 'script': 'bounded/c18_e2e.py', 'timeout': 900, 'bound': 'plain and encrypted repository, owner and shared-key user: listings + restore with the cache disabled vs. warm, every entry cut to 0 / 1 / half / len-1 bytes, one entry missing, an extra stale entry, two entries swapped, cache shared with another key and another repository, stale after a foreign delete; second run on the repaired cache; a client killed just before each of its first 8 file-system mutations under a cold cache directory (audit hook in a child interpreter), then two clients on what it left'}]
 TRUSTED = [
     'vf symbolic executor (/verif/vf): encoding of the Python subset (DESIGN 2.2)',
     'z3 5.1 (API + z3-new CLI), cvc5 1.0.3 (strings)',
